@@ -264,11 +264,17 @@ func runCheck(spec *PropSpec, tier string, seed, workers int) int {
 				reproduced := false
 				var rpath string
 				tried := 0
+				// spread the attempts over the group (neighbouring paths tend to
+				// share whatever makes a counterexample spurious)
+				pick := map[int]bool{}
+				for q := 0; q < 6; q++ {
+					pick[q*len(fsl)/6] = true
+				}
 				for i, f := range fsl {
-					if tried >= 3 {
+					if tried >= 6 {
 						break
 					}
-					if !f.Valid {
+					if !f.Valid || !pick[i] {
 						continue
 					}
 					tried++
@@ -488,8 +494,6 @@ func max1(n int) int {
 
 func round2(f float64) float64 { return float64(int(f*100+0.5)) / 100 }
 
-func cmdSelftest(args []string) int { return 0 }
-
 // c09NativeDeterminism runs H09d natively on pseudo-random source bytes: the
 // confirmation channel for paths the engine had to stop at an unmodelled
 // environment call (math/rand, time, ...): if the real code's choices are not a
@@ -582,4 +586,47 @@ func c14RaceAlways(ctx *checkCtx) {
 		ctx.violations = append(ctx.violations, fmt.Sprintf("VIOLATION property=C14 replay=%s", path))
 		ctx.notes = append(ctx.notes, "violation: native race stress: "+firstLine(out))
 	}
+}
+
+// c17NativeSweep: when the engine had to stop paths at an unmodelled environment
+// call (e.g. a different way of reading the word file), the harness is run
+// natively - on the built binary - over its file / size / entropy choices.
+func c17NativeSweep(ctx *checkCtx) {
+	unmodelled := false
+	for _, s := range ctx.inconcl {
+		if strings.Contains(s, "unmodelled") {
+			unmodelled = true
+		}
+	}
+	if !unmodelled && ctx.tier != "thorough" {
+		return
+	}
+	rp, err := NewReplayer("opgen")
+	if err != nil {
+		ctx.inconcl = append(ctx.inconcl, "native sweep build failed: "+firstLine(err.Error()))
+		return
+	}
+	defer rp.Close()
+	runs := 0
+	for file := 1; file <= 4; file++ {
+		for size := 0; size < 3; size++ {
+			for entropy := 0; entropy < 2; entropy++ {
+				rf := &ReplayFile{Property: "C17", Harness: "HO17w", Tier: ctx.tier, Values: map[string]uint64{}, Bytes: map[string]string{},
+					Choices: map[string]int{"file": file, "size": size, "entropy": entropy, "separator": 0, "capitalize": 0, "list": 0}, Params: map[string]int{}, Expect: "native sweep"}
+				path := filepath.Join(verifDir, "replays", "C17", fmt.Sprintf("native-HO17w-%d-%d-%d.json", file, size, entropy))
+				writeJSON(path, rf)
+				out, verdict := rp.Run(path)
+				runs++
+				ctx.replays++
+				if verdict == "reproduced" {
+					ctx.reproduced++
+					ctx.violations = append(ctx.violations, fmt.Sprintf("VIOLATION property=C17 replay=%s", path))
+					ctx.notes = append(ctx.notes, "violation: native run of the built binary: "+lastLines(out, 1))
+					return
+				}
+				os.Remove(path)
+			}
+		}
+	}
+	ctx.extraEvidence["native_binary_runs"] = runs
 }
